@@ -627,7 +627,7 @@ class CDFLinear(_CDF):
 class CDFQuadratic(_CDF):
     name = "cdf_quadratic"
     kind = "quadratic"
-    minbins_tails = 2
+    minbins_tails = 1
 
 
 @reg
@@ -790,7 +790,7 @@ class CLinear(_Coupling):
 class CQuadratic(_Coupling):
     name = "coupling_quadratic"
     kind = "quadratic"
-    minbins_tails = 2
+    minbins_tails = 1
 
 
 @reg
@@ -951,7 +951,7 @@ class ARQuadratic(_AR):
     name = "ar_quadratic"
     kind = "quadratic"
     has_tails = True
-    minbins_tails = 2
+    minbins_tails = 1
 
 
 @reg
